@@ -3,6 +3,8 @@
 // C16_dyn.cpp); each TU exports one registration function.
 #pragma once
 #include "C16_ad.hpp"
+#include <type_traits>
+#include <utility>
 #include <opm/material/densead/Evaluation.hpp>
 #include <opm/material/densead/Math.hpp>
 
@@ -119,8 +121,70 @@ template <class E> struct Impl {
         E c = constant(n, scalar_value(x.par));
         store(ki.ar == A_SE ? apply_ee(ki.lifted, c, a) : apply_ee(ki.lifted, a, c), n, out);
     }
+    // ---- scalar-type regime -------------------------------------------------
+    template <class S, class = void> struct has_atan2_es : std::false_type {};
+    template <class S> struct has_atan2_es<S, std::void_t<decltype(Opm::DenseAd::atan2(std::declval<const E&>(), std::declval<const S&>()))>> : std::true_type {};
+    template <class S, class = void> struct has_atan2_se : std::false_type {};
+    template <class S> struct has_atan2_se<S, std::void_t<decltype(Opm::DenseAd::atan2(std::declval<const S&>(), std::declval<const E&>()))>> : std::true_type {};
+    template <class S> static bool apply_typed(int kind, const E& a, const S s, E& r) {
+        namespace ad = Opm::DenseAd;
+        switch (kind) {
+        case ADD_ES: r = a + s; return true;
+        case SUB_ES: r = a - s; return true;
+        case MUL_ES: r = a * s; return true;
+        case DIV_ES: r = a / s; return true;
+        case ADD_SE: r = s + a; return true;
+        case SUB_SE: r = s - a; return true;
+        case MUL_SE: r = s * a; return true;
+        case DIV_SE: r = s / a; return true;
+        case ADDEQ_S: r = a; r += s; return true;
+        case SUBEQ_S: r = a; r -= s; return true;
+        case MULEQ_S: r = a; r *= s; return true;
+        case DIVEQ_S: r = a; r /= s; return true;
+        case POW_ES: r = ad::pow(a, s); return true;
+        case POW_SE: r = ad::pow(s, a); return true;
+        case MIN_ES: r = ad::min(a, s); return true;
+        case MIN_SE: r = ad::min(s, a); return true;
+        case MAX_ES: r = ad::max(a, s); return true;
+        case MAX_SE: r = ad::max(s, a); return true;
+        case ATAN2_ES: if constexpr (has_atan2_es<S>::value) { r = ad::atan2(a, s); return true; } else return false;
+        case ATAN2_SE: if constexpr (has_atan2_se<S>::value) { r = ad::atan2(s, a); return true; } else return false;
+        }
+        throw std::logic_error("apply_typed: not a mixed form");
+    }
+    static bool eval_typed(const Tree& t, int n, int stype, double* out) {
+        const Node& x = t.n[t.root()];
+        const E a = eval_node(t, x.a, n);
+        const double sv = scalar_value(x.par);
+        E r = a; bool ok = false;
+        switch (stype) {
+        case ST_DOUBLE: ok = apply_typed<double>(x.kind, a, sv, r); break;
+        case ST_FLOAT: ok = apply_typed<float>(x.kind, a, (float)sv, r); break;
+        case ST_INT: ok = apply_typed<int>(x.kind, a, (int)sv, r); break;
+        case ST_UNSIGNED: ok = apply_typed<unsigned>(x.kind, a, (unsigned)sv, r); break;
+        case ST_LONG: ok = apply_typed<long>(x.kind, a, (long)sv, r); break;
+        case ST_SHORT: ok = apply_typed<short>(x.kind, a, (short)sv, r); break;
+        }
+        if (ok) store(r, n, out);
+        return ok;
+    }
+    template <class S> static unsigned cmp_mask(const E& x, const S s) {
+        const bool r[NCMP] = {x == s, x != s, x < s, x > s, x <= s, x >= s, s < x, s > x, s <= x, s >= x, s != x};
+        unsigned m = 0; for (int i = 0; i < NCMP; ++i) if (r[i]) m |= 1u << i; return m;
+    }
+    static unsigned cmp_typed(const Tree& t, int n, int stype, double sv) {
+        const E x = eval_node(t, t.root(), n);
+        switch (stype) {
+        case ST_DOUBLE: return cmp_mask<double>(x, sv);
+        case ST_FLOAT: return cmp_mask<float>(x, (float)sv);
+        case ST_INT: return cmp_mask<int>(x, (int)sv);
+        case ST_UNSIGNED: return cmp_mask<unsigned>(x, (unsigned)sv);
+        case ST_LONG: return cmp_mask<long>(x, (long)sv);
+        default: return cmp_mask<short>(x, (short)sv);
+        }
+    }
     static Variant make(const std::string& name, const std::string& cls, int n) {
-        Variant v; v.name = name; v.cls = cls; v.n = n; v.dynamic = dyn; v.eval = &eval; v.eval_lifted = &eval_lifted; return v;
+        Variant v; v.name = name; v.cls = cls; v.n = n; v.dynamic = dyn; v.eval = &eval; v.eval_lifted = &eval_lifted; v.eval_typed = &eval_typed; v.cmp_typed = &cmp_typed; return v;
     }
 };
 
